@@ -247,7 +247,8 @@ def _ods_count(text):
 
     :raises ValueError: if ``text`` is not an integer number
     """
-    if not re.match(r"^\s*[+-]?[0-9]+\s*$", text):
+    # NOTE: XML considers only blank, tabulator, carriage return and line feed white space.
+    if not re.match(r"^[ \t\r\n]*[+-]?[0-9]+[ \t\r\n]*$", text):
         raise ValueError("not an integer number: %r" % text)
     return int(text)
 
